@@ -114,6 +114,13 @@ def make_op(op, private_docs):
         return g
     if kind == 'purge':
         return lambda: ('purged', sv.purge())
+    if kind == 'select-lang-fresh':
+        # a language range no call in this process has evaluated before (the same one in every thread of the run); the
+        # document carries it as a tag, so the answer is known without asking the library first
+        import bs4 as _bs4
+        tok = op['_tok']
+        soup = _bs4.BeautifulSoup(f'<div><p id="1" lang="en-{tok}">x</p><p id="2" lang="de">y</p><p id="3" lang="EN-{tok}-x">z</p></div>', 'html.parser')
+        return lambda: ('select-lang-fresh', [e.get('id') for e in sv.select(f'p:lang(en-{tok})', soup)])
     if kind == 'select-ns':
         # the same selector text under the caller's own prefix map (threads use different maps)
         import bs4 as _bs4
@@ -179,7 +186,13 @@ def run_case(case, opcode=False):
     for tid, ops in enumerate(case['threads']):
         for o in ops:
             o['tid'] = tid
-    expected = [[solo(o, private) for o in ops] for ops in case['threads']]
+    tok = fresh_name().replace('-', '').lower()
+    for ops in case['threads']:
+        for o in ops:
+            if o['op'] == 'select-lang-fresh':
+                o['_tok'] = tok
+    expected = [[('ok', ('select-lang-fresh', ['1', '3'])) if o['op'] == 'select-lang-fresh' else solo(o, private) for o in ops]
+                for ops in case['threads']]
     sc = case['schedule']
     if sc['kind'] == 'single':
         schedule = sched.SinglePreemption(sc['point'])
@@ -227,7 +240,7 @@ def run_case(case, opcode=False):
                     fails.append(('later-call-alone-differs', f'after the threads finished, {o["op"]} {(o.get("p") or "")[:40]!r} {o.get("map")} alone gives '
                                                               f'{later}, before the run it gave {exp}; schedule {sc}'))
     # nothing wrong left behind in the cache
-    pats = sorted({o['p'] for ops in case['threads'] for o in ops if o.get('p') and '{fresh}' not in o['p']})
+    pats = sorted({o['p'] for ops in case['threads'] for o in ops if o.get('p') and '{fresh}' not in o['p'] and '<fresh>' not in o['p']})
     def outcome(p):
         try:
             return ('ok', compile_(p))
@@ -346,6 +359,30 @@ def run_single_preemptions(col, ctx, pool, opcode):
                     col.fail(bkt, case, d)
             if not complete:
                 break
+    if complete:
+        # two threads make the first evaluation ever of one language range (a fresh one per run) at the same time
+        opl = {'op': 'select-lang-fresh', 'p': ':lang(en-<fresh>)'}
+        npts, _res = sched.count_yield_points(make_op(dict(opl, tid=0, _tok='probe' + fresh_name().replace('-', '').lower()), [None]))
+        for point in range(1, npts + 2):
+            idx += 1
+            if idx % nsh != k:
+                continue
+            if time.time() > ctx['t_end']:
+                col.extra['budget_exhausted'] = 1
+                complete = False
+                break
+            case = {'threads': [[dict(opl)], [dict(opl)]], 'schedule': {'kind': 'single', 'point': point}, 'opcode': False,
+                    'again_alone': True}
+            fails, st = run_case(case, False)
+            col.count()
+            if st['switches'] >= 1:
+                col.classify('single-first-evaluation-of-a-range')
+                col.nontrivial_case(['single-lang-fresh', point], None)
+            for bkt, d in fails[:2]:
+                for t_ in case['threads']:
+                    for o_ in t_:
+                        o_.pop('_tok', None)
+                col.fail(bkt, case, d)
     if complete:
         # the same selector text under two different caller maps, all single pre-emptions; afterwards each call is made
         # again alone (nothing about one caller's map may stay behind for the other)
